@@ -394,7 +394,94 @@ class Assembler:
                 if e:
                     edits.extend(e)
                     # continue scanning inside (other rules still apply to sub-tokens that are not edited)
+            # ---- function-pointer selection fused with its single call (R17)
+            if t.kind == IDENT and t.text == "let" and v.is_id(k + 1) and v.is_p(k + 2, "=") and v.is_id(k + 3, "match"):
+                e = self.rule_r17(v, k, b)
+                if e:
+                    edits.extend(e)
             k += 1
+        return edits
+
+    def rule_r17(self, v, k, b):
+        """R17: `let f = match E { P => name, Q => { ..; name } , _ => { return ..; } }; ... f(args)`
+        where f is used exactly once, as the callee of a call whose arguments are plain identifiers:
+        the call is moved into the arms (`P => name(args)`), the binding then holds the call's result.
+        Verus has no function-pointer values; the rewrite is semantics-preserving because the
+        arguments are side-effect-free variable reads.  Returns None when the pattern does not apply."""
+        f = v.text(k + 1)
+        j = k + 4
+        while j < b and not v.is_p(j, "{"):
+            if v.t[j].text in "([":
+                j = v.match[j]
+            j += 1
+        if j >= b:
+            return None
+        mo, mc = j, v.match[j]
+        if not v.is_p(mc + 1, ";"):
+            return None
+        # the binding's scope: up to the end of the enclosing block
+        scope_end = b
+        for q0 in range(k - 1, -1, -1):
+            if v.is_p(q0, "{") and v.match.get(q0, -1) > k:
+                scope_end = min(b, v.match[q0])
+                break
+        uses = [q for q in range(mc + 2, scope_end) if v.t[q].kind == IDENT and v.text(q) == f and not v.is_p(q - 1, ".")]
+        if len(uses) != 1 or not v.is_p(uses[0] + 1, "("):
+            return None
+        ca = uses[0]
+        cb = v.match[ca + 1]
+        arg_toks = [v.text(q) for q in range(ca + 2, cb)]
+        if any(not (re.match(r"^[A-Za-z_][A-Za-z0-9_]*$", a) or a == ",") for a in arg_toks):
+            return None
+        args = " ".join(arg_toks)
+        edits = []
+        fused = 0
+        q = mo + 1
+        while q < mc:
+            # pattern up to `=>` at depth 0
+            while q < mc and not v.is_p(q, "=>"):
+                if v.t[q].text in "([{":
+                    q = v.match[q]
+                q += 1
+            if q >= mc:
+                break
+            q += 1
+            if v.is_p(q, "{"):
+                bo, bc = q, v.match[q]
+                last = bc - 1
+                if v.is_p(last, ";"):
+                    if not any(v.is_id(x, "return") for x in range(bo, bc)):
+                        return None
+                elif v.t[last].kind == IDENT:
+                    st = last
+                    while v.is_p(st - 1, "::") and v.is_id(st - 2):
+                        st -= 2
+                    if v.t[st - 1].text not in (";", "}", "{"):
+                        return None
+                    edits.append(Edit(last + 1, last + 1, f"({args})", "R17", f"call moved into the arm selecting {v.text(last)}"))
+                    fused += 1
+                else:
+                    return None
+                q = bc + 1
+                if v.is_p(q, ","):
+                    q += 1
+            else:
+                st = q
+                while q < mc and not v.is_p(q, ","):
+                    if v.t[q].text in "([{":
+                        q = v.match[q]
+                    q += 1
+                toks = [v.text(x) for x in range(st, q)]
+                if not toks or any(not (re.match(r"^[A-Za-z_][A-Za-z0-9_]*$", a) or a == "::") for a in toks):
+                    return None
+                edits.append(Edit(q, q, f"({args})", "R17", f"call moved into the arm selecting {' '.join(toks)}"))
+                fused += 1
+                if v.is_p(q, ","):
+                    q += 1
+        if not fused:
+            return None
+        edits.append(Edit(k + 1, k + 2, f + "__r", "R17", "binding holds the call's result"))
+        edits.append(Edit(ca, cb + 1, f + "__r", "R17", "call site replaced by the fused result"))
         return edits
 
     def rule_r11(self, v, k, b):
@@ -845,6 +932,15 @@ class Assembler:
     const fn intersects(&self, o: {name}) -> (r: bool) ensures r == (self.bits & o.bits != 0) {{ self.bits & o.bits != 0 }}
     fn remove(&mut self, o: {name}) ensures final(self).bits == old(self).bits & !o.bits {{ self.bits = self.bits & !o.bits; }}
     fn insert(&mut self, o: {name}) ensures final(self).bits == old(self).bits | o.bits {{ self.bits = self.bits | o.bits; }}
+}}
+impl vstd::std_specs::ops::BitOrSpecImpl<{name}> for {name} {{
+    closed spec fn obeys_bitor_spec() -> bool {{ true }}
+    closed spec fn bitor_req(self, o: {name}) -> bool {{ true }}
+    closed spec fn bitor_spec(self, o: {name}) -> {name} {{ {name} {{ bits: self.bits | o.bits }} }}
+}}
+impl core::ops::BitOr for {name} {{
+    type Output = {name};
+    fn bitor(self, o: {name}) -> (r: {name}) {{ {name} {{ bits: self.bits | o.bits }} }}
 }}""")
         lines.append("/*@E*/")
         self.emit("\n" + "\n".join(lines) + "\n")
